@@ -784,6 +784,11 @@ func mgInjectConflict(rng *rand.Rand, p *reg.Pkg, g *treeGen, a, b ygot.Validate
 			if s.kind == "leaflist" && s.field().Len() > 0 {
 				cands = append(cands, s)
 			}
+		case "unionll":
+			// a leaf-list of union type (members are interface values; pointers with wrapper unions)
+			if s.kind == "leaflist" && s.field().Len() > 0 && s.sf.Type.Elem().Kind() == reflect.Interface {
+				cands = append(cands, s)
+			}
 		case "unkeyed":
 			if s.kind == "unkeyed" && s.field().Len() > 0 {
 				cands = append(cands, s)
@@ -1263,6 +1268,10 @@ func mgMergeStream(rng *rand.Rand, n int, tier string, out string) (*Summary, er
 			// same raw value on the two sides (packages whose corpus has such a union)
 			for i := 0; i < 4; i++ {
 				mgMergeCase(p, rng.Int63(), "union-same-raw", &id, tf, sum, seen)
+			}
+			// directed: union leaf-lists that overlap without being equal
+			for i := 0; i < 4; i++ {
+				mgMergeCase(p, rng.Int63(), "unionll", &id, tf, sum, seen)
 			}
 			for i := 0; i < shares[name]; i++ {
 				mgMergeCase(p, rng.Int63(), "", &id, tf, sum, seen)
